@@ -9,6 +9,7 @@ the canonical digest of the whole model state.  A line that cannot be parsed is
 answered with `bad-op <why>` — never with a default.
 -/
 import DC.Model.Cache
+import DC.Model.Check
 
 open DC
 
@@ -272,6 +273,65 @@ def runCacheOp (s : Cache) (kv : KV) : Except String (Cache × Out) := do
     | _ => throw "reset-key"
   | _ => throw s!"method:{m}"
 
+
+/-! ### `check` protocol -/
+
+def splitList (s : String) (sep : String) : List String :=
+  if s.isEmpty || s == "-" then [] else s.splitOn sep
+
+def parseNats (s : String) (sep : String) : Option (List Nat) :=
+  (splitList s sep).foldr (fun t acc => match acc, t.toNat? with
+    | some l, some n => some (n :: l)
+    | _, _ => none) (some [])
+
+def parseCkState (kv : KV) : Option Check.St := do
+  let rows ← (splitList (kv.getD "rows" "-") ";").foldr (fun t acc => do
+      let l ← acc
+      match t.splitOn ":" with
+      | [a, b, c] =>
+        let rowid ← a.toNat?
+        let size ← b.toNat?
+        let file ← (if c == "n" then some none else c.toNat?.map some)
+        pure ({ rowid := rowid, size := size, file := file } :: l)
+      | _ => none) (some [])
+  let files ← (splitList (kv.getD "files" "-") ";").foldr (fun t acc => do
+      let l ← acc
+      match (parseNats t ":") with
+      | some [a, b, c, d] => pure ({ id := a, d1 := b, d2 := c, size := d } :: l)
+      | _ => none) (some [])
+  let dirs1 ← parseNats (kv.getD "dirs1" "-") ","
+  let dirs2 ← (splitList (kv.getD "dirs2" "-") ",").foldr (fun t acc => do
+      let l ← acc
+      match (parseNats t ":") with
+      | some [a, b] => pure ((a, b) :: l)
+      | _ => none) (some [])
+  let count ← (kv.getD "count" "0").toInt?
+  let size ← (kv.getD "size" "0").toInt?
+  pure { rows := rows, count := count, size := size, files := files, dirs1 := dirs1, dirs2 := dirs2 }
+
+def renderWarn : Check.Warn → String
+  | .wrongSize r a b => s!"W{r}:{a}:{b}"
+  | .notFound r => s!"N{r}"
+  | .unknown f => s!"U{f}"
+  | .emptyDir2 a b => s!"E2:{a}:{b}"
+  | .emptyDir1 a => s!"E1:{a}"
+  | .count a b => s!"C{a}:{b}"
+  | .size a b => s!"Z{a}:{b}"
+
+def renderCkState (s : Check.St) : String :=
+  "rows=" ++ ";".intercalate (s.rows.map (fun r => s!"{r.rowid}:{r.size}:" ++ (match r.file with | some f => toString f | none => "n"))) ++
+  s!" count={s.count} size={s.size} files=" ++
+  ";".intercalate ((isort (fun (a b : Check.FsFile) => a.id < b.id) s.files).map (fun f => s!"{f.id}:{f.d1}:{f.d2}:{f.size}")) ++
+  " dirs1=" ++ ",".intercalate ((isort (fun (a b : Nat) => a < b) s.dirs1).map toString) ++
+  " dirs2=" ++ ",".intercalate ((isort (fun (a b : Nat × Nat) => a.1 < b.1 || (a.1 == b.1 && a.2 < b.2)) s.dirs2).map (fun d => s!"{d.1}:{d.2}"))
+
+def answerCk (kv : KV) : String :=
+  match parseCkState kv with
+  | none => "bad-op ck"
+  | some st =>
+    let (st', ws) := Check.check (parseBool (kv.getD "fix" "0")) st
+    "ck " ++ ",".intercalate (ws.map renderWarn) ++ " | " ++ renderCkState st'
+
 structure DState where
   cache : Cache := {}
   deriving Inhabited
@@ -292,6 +352,7 @@ def answer (st : DState) (line : String) : DState × String :=
       ({ st with cache := c },
        "ret " ++ renderOut out ++ " | " ++ renderTrace c.trace ++ (if c.envMiss then " | env-missing" else ""))
     | .error e => (st, "bad-op " ++ e)
+  | ("ck", _) :: rest => (st, answerCk rest)
   | _ => (st, "bad-op line")
 
 partial def loop (h : IO.FS.Stream) (out : IO.FS.Stream) (st : DState) : IO Unit := do
